@@ -61,6 +61,38 @@ func checkC02(w *World, r *Report) {
 	r.Floor("cycle-path", 2)
 }
 
+// stageGoroutines: the functions the scheduling function launches with a go statement
+// (closures or methods), with the go instructions.
+func stageGoroutines(s *ssa.Function) (fns []*ssa.Function, gos []*ssa.Go) {
+	seen := map[*ssa.Function]bool{}
+	allInstrs(s, func(in ssa.Instruction) {
+		g, ok := in.(*ssa.Go)
+		if !ok {
+			return
+		}
+		gos = append(gos, g)
+		f := funcValue(g.Call.Value)
+		if f == nil {
+			f = g.Call.StaticCallee()
+		}
+		if f != nil && !seen[f] {
+			seen[f] = true
+			fns = append(fns, f)
+		}
+	})
+	return fns, gos
+}
+
+// stageArgAP: the access path of the *scheduler.Stage argument of a go statement.
+func (w *World) stageArgAP(g *ssa.Go) string {
+	for _, a := range g.Call.Args {
+		if strings.HasSuffix(a.Type().String(), "scheduler.Stage") {
+			return w.AP(a)
+		}
+	}
+	return ""
+}
+
 func launchGate(w *World, r *Report, rule string) {
 	s := w.FuncByName("taskctl", "(*Scheduler).Schedule")
 	if s == nil {
@@ -80,6 +112,13 @@ func launchGate(w *World, r *Report, rule string) {
 			}
 			nGo++
 			stage := ev.Eff.Val
+			if g, ok := ev.Eff.In.(*ssa.Go); ok {
+				w.phiEnv = p.phi
+				if sa := w.stageArgAP(g); sa != "" {
+					stage = sa
+				}
+				w.phiEnv = nil
+			}
 			sawWaiting, depOK, setRunning := false, false, false
 			for _, prev := range p.Events[:i] {
 				if prev.Lit != nil {
@@ -102,7 +141,8 @@ func launchGate(w *World, r *Report, rule string) {
 	}
 	r.Check(bad == "" && nGo > 0, rule+".gate", FuncName(s)+": stage launch", w.Pos(s.Pos()), fmt.Sprintf("all %d launching paths observed Waiting, passed the dependency check and set Running before the go statement", nGo), bad+": a task can run twice or before its dependencies finished")
 	// the stage goroutine never sets Waiting (nor Running)
-	for _, cl := range s.AnonFuncs {
+	stageFns, _ := stageGoroutines(s)
+	for _, cl := range stageFns {
 		okC := true
 		allInstrs(cl, func(in ssa.Instruction) {
 			if c := callCommonOf(in); c != nil && strings.HasSuffix(calleeName(c), "scheduler.(Stage).UpdateStatus") {
